@@ -30,6 +30,8 @@ def place_demo(d, name):
             return f'{build} && sh _out/{m.group(1)}/demo.sh', lambda: shutil.rmtree(os.path.join(WT, '_out'), ignore_errors=True)
         # a shell demonstration that drives the CLI binary (argument 1 = the binary)
         return f'{build} && bash {d}/demo.sh {WT}/target/debug/risinglight', lambda: None
+    if os.path.exists(os.path.join(d, 'demo.py')) and not os.path.exists(os.path.join(d, 'demo.sh')):
+        return f'{build} && python3 {d}/demo.py {WT}/target/debug/risinglight', lambda: None
     if os.path.exists(os.path.join(d, 'run_demo.sh')):
         return f'{build} && BIN={WT}/target/debug/risinglight sh {d}/run_demo.sh', lambda: None
     if not os.path.exists(os.path.join(d, 'demo.rs')) and os.path.exists(os.path.join(d, 'demo.slt')):
